@@ -13,6 +13,7 @@ CLAIMS = {
  'C08': "For every reduction (sum, prod, mean, var, std, min, max, ptp, all, any, median, percentile), shapes with sizes 1-3 in 1-4 dims, axis given by name / position / negative position / tuple of names or positions in any order / None, both skipna settings and float/int/bool data, the real reduction code runs symbolically over all data values and all NaN patterns (symbolic NaN bits up to 6 cells); z3 discharges 'each output cell == the NumPy kernel on the designated fibre, remaining axes in original order, metadata kept, DimArray whenever an axis remains'.",
  'C09': "For cumsum / cumprod (default, named, positional axis), diff (three schemes x keepaxis x n in 1..3 x axis sizes 1-5, numeric and str labels) and argmin / argmax (whole array and per axis, ties, NaNs, skipna) in 1-3 dims, the real code runs symbolically over all labels and data; z3 discharges the prefix-fold, n-th difference + relabelling / NaN padding, and 'returned labels index an extremal cell' obligations.",
  'C10': "For every shape in the bound (0-4 dims, equal and distinct lengths) and every permutation / axis pair / roll / insertion position / squeeze / repeat / broadcast target / broadcast_arrays group, by name and by position, the real rearrangement code runs on symbolic labels and data (one path per case); z3 discharges the coordinate-wise obligation for all label and data values.",
+ 'C11': "For arrays of 1-4 dims (sizes 1-3, member axes of every kind combination) and every ordered subset of dimensions (tuple / list / set / varargs / positions), every insert position, reverse, unflatten of the grouped axis, 24 reshape targets (regroup, reorder, add and drop singletons, transpose=False) and tuple-axis reductions, the real grouping code runs on symbolic labels and data; z3 discharges 'grouped label i == i-th row-major combination of the unchanged member labels, value == original value at that combination, unflatten / reshape round trips'.",
  'C07': "For every structural case (axis length 1-4, 0-3 new labels, axis position in 1-3 dims, list/ndarray/Axis argument, fill value, raise_error, method) reindex_axis / reindex_like run symbolically over all old label orders and all new labels (subset, superset, disjoint, permuted, repeated); z3 discharges 'axis == new labels, slice at a new label == old slice if present else fill'.",
  'C02': "For every structural case (axis length 0-5, direction, step, open/closed bounds, label kind, neighbouring index kinds) the real slicing code is executed symbolically over all label / bound / data values and z3 discharges the inclusive-box obligation on every path.",
 }
